@@ -182,6 +182,20 @@ def step (st : DState) (line : String) : DState × String :=
   | ["tok", "val", addr, token] => (match st.tokens, parseAddr addr, hx token with
       | some t, some a, some tk => (st, toString (t.validate a.ip tk))
       | _, _, _ => (st, "bad-op"))
+  -- api stream
+  | ["mr", _flavour, items] =>
+      let parsed : Option (List Api.Item) :=
+        if items == "-" then some [] else
+        (items.splitOn ",").mapM (fun it => match it.splitOn ":" with
+          | [sq, v] => match sq.toInt?, hx v with
+            | some sq, some v => some ⟨sq, v⟩
+            | _, _ => none
+          | _ => none)
+      (st, match parsed with
+        | some its => (match Api.mostRecent its with
+          | none => "none"
+          | some r => s!"{r.seq}:{if r.value.isEmpty then "-" else bytesToHex r.value}")
+        | none => "bad-op")
   -- closest stream
   | ["add", idh, addr] => (match mkNode idh addr st.now with
       | none => (st, "bad-op")
